@@ -438,6 +438,11 @@ class Folder:
         if isinstance(f, FuncVal):
             return self._call_function(f, args, kwargs)
         if isinstance(f, ExtVal):
+            if f.name == "collections.OrderedDict" and not f.called and not any(is_unknown(a) or isinstance(a, ExtVal) for a in list(args) + list(kwargs.values())):
+                try:  # an insertion-ordered mapping: the folder's dict is one
+                    return dict(*args, **kwargs)
+                except Exception:
+                    return Unknown("OrderedDict failed")
             return ExtVal(f.name, tuple(args), tuple(sorted(kwargs.items())), True)
         if isinstance(f, tuple) and f and f[0] == "builtin":
             return self._builtin(f[1], args, kwargs)
@@ -580,6 +585,10 @@ class Folder:
         fn = f.fn
         if isinstance(fn.node, ast.Lambda):
             return Unknown("lambda")
+        hook = getattr(self, "intercepts", {}).get(fn.short)
+        if hook is not None:  # a rule asks for the arguments a callee is handed instead of its result
+            b = self._bind(fn, f.bound, args, kwargs, fn.module)
+            return hook(b)
         m = fn.module
         env = dict(f.env or {})
         env.update(self._bind(fn, f.bound, args, kwargs, m))
@@ -698,6 +707,15 @@ class Folder:
                 targets = n.targets if isinstance(n, ast.Assign) else [n.target]
                 for t in targets:
                     self._assign(t, Unknown(f"assigned under undecidable control ({norm(st)[:40]})"), env, m)
+            elif isinstance(n, ast.Call) and isinstance(n.func, ast.Attribute) and isinstance(n.func.value, ast.Name) and n.func.value.id in env \
+                    and n.func.attr in ("append", "extend", "insert", "remove", "pop", "update", "add", "discard", "clear", "setdefault", "sort", "reverse", "popitem") \
+                    and isinstance(env[n.func.value.id], (list, dict, set)):
+                # a container mutated under undecidable control is no longer known
+                env[n.func.value.id] = Unknown(f"mutated under undecidable control ({norm(st)[:40]})")
+            elif isinstance(n, ast.Delete):
+                for t in n.targets:
+                    if isinstance(t, ast.Subscript) and isinstance(t.value, ast.Name) and t.value.id in env:
+                        env[t.value.id] = Unknown(f"mutated under undecidable control ({norm(st)[:40]})")
 
     def _assign(self, t: ast.expr, v: Any, env: Dict[str, Any], m: Module) -> None:
         if isinstance(t, ast.Name):
